@@ -74,6 +74,10 @@ func (a *AES128CBC) DecodeFromBytes(data []byte, _ gopacket.DecodeFeedback) erro
 		return fmt.Errorf("invalid number of pad bytes: %v", padBytes)
 	}
 	padStart := len(data) - int(padBytes) - 1
+	if padStart < a.cipher.BlockSize() {
+		// the pad cannot extend into the IV
+		return fmt.Errorf("invalid number of pad bytes: %v in %v bytes of data", padBytes, len(data)-a.cipher.BlockSize())
+	}
 	// table 13-20 of the spec says we should check the pad
 	v := uint8(1)
 	for i := padStart; i < padStart+int(padBytes); i++ {
